@@ -174,8 +174,15 @@ def make_prior(kind, args):
     return LogGaussian(mean=args[0], std=args[1])
 
 
+_SAME = [[]]
+
+
 def vector(letter, n):
     L = letters()
+    if letter == 'same':
+        # every entry equals the number the parameter holds right now (in linear space): under a log prior that is a new
+        # value, 10**x, like any other
+        return list(_SAME[0][:n])
     if letter == 'badlen':
         return list(L['v1'][:n - 1]) if n >= 1 else [L['v1'][0]]
     if letter == 'toolong':
@@ -389,6 +396,13 @@ def step(w, s, op):
         apply_ref(s, [op[0], op[1], op[2].lower()])
         return None, None, []
     flags = None
+    if op[0] == 'update_model' and op[1] == 'same':
+        try:
+            _SAME[0] = [float(c_[2]()) for c_ in (w[2].fitting_parameters or [])]
+        except Exception:
+            _SAME[0] = []
+        if any(abs(v_) > 200 for v_ in _SAME[0]):
+            _SAME[0] = list(letters()['v1'])        # 10**x would leave the floating-point range: an ordinary vector instead
     if op[0] == 'update_model':
         flags = reported_log_flags(w[2])
         if len(flags) != s.nfit():
@@ -974,7 +988,7 @@ def explore(ctx):
         # parameters, every operation, depth 3
         run_phase(ctx, 'all', alphabet(QUICK_PARAMS, DERIVED, priors=('U', 'LU'), errors='few', updates=('v1',)), 3)
         # two parameters (default-fit linear + log, the pair of the design prototype), depth 4
-        run_phase(ctx, 'pair', alphabet(['planet_radius', 'H2O'], [], errors=None, updates=('v1', 'v2np')), 4)
+        run_phase(ctx, 'pair', alphabet(['planet_radius', 'H2O'], [], errors=None, updates=('v1', 'v2np', 'same')), 4)
         # differently capitalised mode names next to the plain ones
         run_phase(ctx, 'spelling', alphabet(['planet_radius', 'H2O'], [], priors=(), errors=None, updates=('v1',),
                                             spelled=True), 3)
@@ -985,7 +999,7 @@ def explore(ctx):
         # all five parameters, all derived parameters, four prior kinds, every error letter, depth 4
         # (this contains every depth-2 state of the full alphabet as the start of a depth-2 search)
         run_phase(ctx, 'all', alphabet(PARAMS, DERIVED, priors=('U', 'LU', 'G', 'LG'), errors='all'), 4)
-        run_phase(ctx, 'pair', alphabet(['planet_radius', 'H2O'], [], errors=None, updates=('v1', 'v2', 'v2np')), 6)
+        run_phase(ctx, 'pair', alphabet(['planet_radius', 'H2O'], [], errors=None, updates=('v1', 'v2', 'v2np', 'same')), 6)
         run_phase(ctx, 'spelling', alphabet(['planet_radius', 'H2O', 'obs_scale'], [], priors=('U',), errors=None,
                                             updates=('v1',), spelled=True), 4)
         run_phase(ctx, 'pair-obs', alphabet(['T', 'obs_scale'], ['obs_d'], errors=None, updates=('v1',)), 5)
